@@ -523,7 +523,7 @@ def make_ops(flavour):
         return And(returned(post), Iff(is_true(post.result), Not(anyone)), Or(is_true(post.result), is_false(post.result)))
 
     # ---------------------------------------------------------------- find_matching_nodes / merge_nodes
-    def make_two(name, method, gen, clauses, cost=10):
+    def make_two(name, method, gen, clauses, cost=10, cross_edges=False):
         class Op2(Contract):
             target = TP + method
             props = ('C05', 'C04', 'C14')
@@ -532,7 +532,9 @@ def make_ops(flavour):
             extra_targets = (TM + '_find_node', TM + '_find_all_nodes', TM + '_collect_nodeids')
 
             def inputs(self, g):
-                w = world(g, flavour)
+                # cross_edges: links between nodes of DIFFERENT graphs, as an earlier merge_nodes leaves them in the shared store
+                w = gen_shared_world(g, extra_prop='Extra', cross_edges=True) if cross_edges and flavour == 'shared' \
+                    else world(g, flavour)
                 kw = gen(g, w)
                 kw['other_graph'] = handle(w, w.gB)
                 return [handle(w, w.gA)], kw
@@ -637,7 +639,8 @@ def make_ops(flavour):
                       False)
 
         make_two('MergeNodes', 'merge_nodes', gen_merge,
-                 {'keeps_all_edges_and_applies_policy': c_merge, 'frame.third_parties': lambda pre, post: True}, cost=30)
+                 {'keeps_all_edges_and_applies_policy': c_merge, 'frame.third_parties': lambda pre, post: True}, cost=30,
+                 cross_edges=True)
 
     op('CheckNodeUnique', 'check_node_unique', lambda g, w: dict(label=g.atom('label'), name=g.atom('name')),
        {'true_iff_no_node_of_class_and_name': c_unique, 'pure': unchanged})
